@@ -388,9 +388,34 @@ func (cw *c15World) clientTask(id int) {
 			cw.pullRemote()
 			continue
 		}
+		if c15NoInfiniteKeepAlive && verifsim.Draw("abandon", 5) == 0 {
+			cw.abandonedRequest()
+			continue
+		}
 		cw.op(id)
 	}
 	cw.clientDone()
+}
+
+// abandonedRequest (C02 stage only): the client goes away after a while - before, during or
+// after the load its request needs - and does not wait for the handler, which C02 allows to
+// stay unanswered. What C02 does not allow is that this costs anybody else their reply.
+func (cw *c15World) abandonedRequest() {
+	name, _ := cw.drawName()
+	ctx, cancel := context.WithCancel(context.Background())
+	stream := verifsim.Draw("stream", 2) == 0
+	req := api.GenerateRequest{Model: name, Prompt: "never mind", Stream: &stream, KeepAlive: drawKeepAlive()}
+	answered := false
+	verifsim.Go("abandoned", func() {
+		r := cw.apiJSON(ctx, "POST", "/api/generate", req)
+		cw.count("generate", r.code)
+		answered = true
+	})
+	verifsim.Sleep(time.Duration(verifsim.Draw("abandon-after", 3000)) * time.Millisecond)
+	if !answered {
+		verifsim.Fault("client_interrupt")
+	}
+	cancel()
 }
 
 func runC15(t *testing.T, tape *verifsim.Tape, prop, tier string, keepLog bool) verifsim.Result {
@@ -529,7 +554,7 @@ func getenvOr(k string) string {
 // checkC02 is the HTTP-level stage of C02: no client of this workload cancels a request, every
 // load finishes, so every request must be answered (a run that ends with nothing runnable, no
 // timer pending and clients still waiting has lost a reply), and once the keep-alive periods
-// (at most the default five minutes here) have elapsed every runner that was started has been
+// (at most the default five minutes here, after a load of at most 154 s) have elapsed every runner that was started has been
 // closed and GET /api/ps reports nothing. Controller only.
 func (cw *c15World) checkC02(sim *verifsim.Sim, stop verifsim.Stop) {
 	w := cw.apiWorld
@@ -542,7 +567,9 @@ func (cw *c15World) checkC02(sim *verifsim.Sim, stop verifsim.Stop) {
 		verifsim.Probe("c02_http_run_out_of_budget")
 		return
 	}
-	sim.RunUntil(nil, 6*time.Minute, 200000)
+	// the longest keep-alive here is the default five minutes; a request that its client
+	// abandoned may still finish a load (up to 154 s) after the last response
+	sim.RunUntil(nil, 15*time.Minute, 400000)
 	if live := w.live(); len(live) > 0 {
 		verifsim.Violate("C02", "drain", "http:drain:runner-never-closed", fmt.Sprintf("all requests have been answered and more than the longest keep-alive period has elapsed, but %d of %d runners that were started have not been shut down (first: #%d for %s)", len(live), len(w.srvs), live[0].id, w.famOfPath(live[0].model)))
 		return
